@@ -456,3 +456,42 @@ def quaternion_of_rotation(M):
 
 
 sc.QUERY_HOOKS.append(instantiate_acos)
+
+
+def _acos_branch_abstraction(ctx, extra, groups):
+    """branch feasibility with every acos* application replaced by a free value in [0, pi] (and only the
+    constraints that mention such applications kept): a sound over-approximation that avoids non-linear
+    model search for trace polynomials"""
+    import time
+    apps = _acos_apps(extra)
+    if not apps:
+        return None
+    pool = ctx.assumptions + ctx.path_formulas()
+    apps = _acos_apps(pool + list(extra))
+    sub = [(a, z3.Real("acosabs!%d" % a.get_id())) for a in apps]
+    ex = [z3.substitute(f, *sub) for f in extra]
+    vs = set()
+    for f in ex:
+        vs |= sc.term_vars(f)
+    keep = []
+    for f in pool:
+        g = z3.substitute(f, *sub)
+        gv = sc.term_vars(g)
+        if gv and gv <= vs | {str(v) for _, v in sub}:
+            keep.append(g)
+    pi = sc.q_of(PI)
+    s = z3.SimpleSolver()
+    s.set("timeout", 2000)
+    for _, v in sub:
+        s.add(v >= 0, v <= pi)
+    for f in keep + ex:
+        s.add(f)
+    t0 = time.time()
+    r = str(s.check())
+    ctx.stats.add("branch-abstract", time.time() - t0)
+    if r == "unknown":
+        return None
+    return r
+
+
+sc.BRANCH_ABSTRACTIONS.append(_acos_branch_abstraction)
